@@ -240,12 +240,31 @@ def gen_blocks(rng, d):
     return blocks
 
 
+def gen_expdecay(rng, dx):
+    return dict(base=gen_matern(rng, dx), mu=rng.choice([0.0, rng.uniform(-1, 1)]),
+                alpha=loguniform(rng, 0.2, 5), mean_lam=loguniform(rng, 0.05, 5), gamma=rng.uniform(0.05, 0.95),
+                delta=rng.choice([None, 0.0, 1.0, rng.uniform(0.05, 0.95)]), delta_free=rng.uniform(0.05, 0.95))
+
+
 def gen_spec(rng):
-    sub = rng.choice(["warp", "warp", "warp", "product", "range", "expdecay"])
-    spec = dict(sub=sub)
-    if sub == "warp":
-        d = rng.randint(1, 5)
-        spec.update(D=d, base=gen_matern(rng, d), blocks=gen_blocks(rng, d))
+    sub = rng.choice(["warp", "warp", "warp", "product", "range", "expdecay", "matern", "warp_outer", "warp_outer"])
+    spec = dict(sub=sub, install=rng.choice(["dict", "direct"]))
+    highd = False
+    if sub == "matern":
+        # plain Matern-5/2, mostly ARD in HIGH dimension (parameter names inv_bw10.. sort before inv_bw2)
+        d = rng.choice([rng.randint(2, 6), rng.randint(11, 14), rng.randint(11, 14)])
+        ms = gen_matern(rng, d)
+        if d >= 11:
+            ms.update(ard=True, ibs=[loguniform(rng, 0.1, 3) for _ in range(d)])
+        spec.update(D=d, base=ms)
+        highd = d >= 11
+    elif sub == "warp":
+        d = rng.choice([rng.randint(1, 5), rng.randint(1, 5), rng.randint(1, 5), rng.randint(11, 13)])
+        ms = gen_matern(rng, d)
+        if d >= 11:
+            ms.update(ard=True, ibs=[loguniform(rng, 0.1, 3) for _ in range(d)])
+        spec.update(D=d, base=ms, blocks=gen_blocks(rng, d))
+        highd = d >= 11
     elif sub == "product":
         d1, d2 = rng.randint(1, 3), rng.randint(1, 2)
         spec.update(D=d1 + d2, k1=gen_matern(rng, d1), k2=gen_matern(rng, d2),
@@ -254,14 +273,25 @@ def gen_spec(rng):
         D = rng.randint(2, 5)
         dk = rng.randint(1, D - 1)
         spec.update(D=D, base=gen_matern(rng, dk), start=rng.randint(0, D - dk))
-    else:
+    elif sub == "expdecay":
         dx = rng.randint(1, 3)
-        spec.update(D=dx + 1, base=gen_matern(rng, dx), mu=rng.choice([0.0, rng.uniform(-1, 1)]),
-                    alpha=loguniform(rng, 0.2, 5), mean_lam=loguniform(rng, 0.05, 5), gamma=rng.uniform(0.05, 0.95),
-                    delta=rng.choice([None, 0.0, 1.0, rng.uniform(0.05, 0.95)]),
-                    delta_free=rng.uniform(0.05, 0.95))
+        spec.update(D=dx + 1, **gen_expdecay(rng, dx))
+    else:
+        # WarpedKernel around a kernel whose diagonal depends on X: exponential decay, or a product containing
+        # one; the last Warping block covers the resource coordinate (inputs incl. the resource lie in [0,1])
+        dx = rng.randint(1, 2)
+        inner = rng.choice(["expdecay", "product_expdecay"])
+        d1 = rng.randint(1, 2) if inner == "product_expdecay" else 0
+        D = d1 + dx + 1
+        lo = rng.randint(max(0, D - 2), D - 1)
+        blocks = [dict(lo=lo, up=D, a=[loguniform(rng, 0.3, 3.5) for _ in range(D - lo)],
+                       b=[loguniform(rng, 0.3, 3.5) for _ in range(D - lo)])]
+        if lo >= 2 and rng.random() < 0.5:
+            blocks.insert(0, dict(lo=0, up=1, a=[loguniform(rng, 0.3, 3.5)], b=[loguniform(rng, 0.3, 3.5)]))
+        spec.update(D=D, inner=inner, d1=d1, k1=gen_matern(rng, d1) if d1 else None, ed=gen_expdecay(rng, dx),
+                    blocks=blocks)
     D = spec["D"]
-    n = rng.choice([2, 3, 5, 8, 12])
+    n = rng.choice([2, 3, 4]) if highd else rng.choice([2, 3, 5, 8, 12])
     m = rng.choice([1, 1, 2, 3])
     t = rng.randint(1, 4)
 
@@ -283,93 +313,172 @@ def gen_spec(rng):
 # --------------------------------------------------------------------------
 # building the real objects + the matching reference
 # --------------------------------------------------------------------------
-def build_matern(ms):
-    from syne_tune.optimizer.schedulers.searchers.bayesopt.gpautograd.kernel import Matern52
-    k = Matern52(ms["d"], ARD=ms["ard"])
-    k.collect_params().initialize()
+def check_installed(issues, label, got, intended):
+    """every hyper-parameter read back through the public get_params equals the requested value (the encodings
+    move a value by at most a few ulp)"""
+    for k_, v in intended.items():
+        if k_ not in got:
+            issues.append(("%s: get_params has no entry %r" % (label, k_), "param_roundtrip"))
+        elif not abs(float(got[k_]) - float(v)) <= 16 * EPS * abs(float(v)):
+            issues.append(("%s: parameter %s reads back as %r, requested %r" % (label, k_, float(got[k_]), float(v)),
+                           "param_roundtrip"))
+    extra = sorted(set(got) - set(intended))
+    if extra:
+        issues.append(("%s: get_params has unexpected entries %s" % (label, extra), "param_roundtrip"))
+
+
+def check_roundtrip(issues, label, obj, fresh):
+    """get_params o set_params = id: a freshly built object given obj.get_params() reports the same values"""
+    p = {k_: float(v) for k_, v in obj.get_params().items()}
+    o2 = fresh()
+    o2.set_params(dict(p))
+    p2 = {k_: float(v) for k_, v in o2.get_params().items()}
+    if sorted(p) != sorted(p2) or any(not abs(p2[k_] - p[k_]) <= 16 * EPS * abs(p[k_]) for k_ in p):
+        bad = [k_ for k_ in p if k_ not in p2 or not abs(p2[k_] - p[k_]) <= 16 * EPS * abs(p[k_])]
+        issues.append(("%s: set_params(get_params()) on a fresh object changes %s" % (label, bad[:4]), "param_roundtrip"))
+
+
+def matern_params(ms):
     prm = {"covariance_scale": ms["cs"]}
-    if len(ms["ibs"]) == 1:
+    if ms["d"] == 1 or not ms["ard"]:
         prm["inv_bw"] = ms["ibs"][0]
     else:
         prm.update({"inv_bw%d" % i: v for i, v in enumerate(ms["ibs"])})
-    k.set_params(prm)
+    return prm
+
+
+def build_matern(ms, how="dict", issues=None):
+    from syne_tune.optimizer.schedulers.searchers.bayesopt.gpautograd.kernel import Matern52
+
+    def fresh():
+        k_ = Matern52(ms["d"], ARD=ms["ard"])
+        k_.collect_params().initialize()
+        return k_
+    k = fresh()
+    prm = matern_params(ms)
+    if how == "dict":
+        k.set_params(dict(prm))      # the public dict interface (what model / likelihood set_params route to)
+    else:                            # directly on the parameter objects
+        sd = k.squared_distance
+        sd.encoding.set(sd.inverse_bandwidths_internal, list(ms["ibs"]) if ms["ard"] and ms["d"] > 1 else [ms["ibs"][0]])
+        k.encoding.set(k.covariance_scale_internal, ms["cs"])
     got = k.get_params()
+    if issues is not None:
+        check_installed(issues, "Matern52(d=%d, ARD=%s) via %s" % (ms["d"], ms["ard"], how), got, prm)
+        check_roundtrip(issues, "Matern52(d=%d, ARD=%s)" % (ms["d"], ms["ard"]), k, fresh)
     ibs = [float(got["inv_bw"])] * ms["d"] if "inv_bw" in got else [float(got["inv_bw%d" % i]) for i in range(ms["d"])]
     return k, RefMatern(ibs, float(got["covariance_scale"]))
 
 
-def build_warped(kernel, ref, blocks, d):
+def build_warped(kernel, ref, blocks, d, how="dict", issues=None, fresh_inner=None):
     from syne_tune.optimizer.schedulers.searchers.bayesopt.gpautograd.warping import Warping, WarpedKernel
+
+    def pname(i, size, kind, j):
+        pref = "warping_" if len(blocks) == 1 else "warping%d_" % i
+        return pref + ("power_%s" % kind if size == 1 else "power_%s_%d" % (kind, j))
     warpings = [Warping(d, coordinate_range=(b["lo"], b["up"])) for b in blocks]
     wk = WarpedKernel(kernel=kernel, warpings=warpings)
     wk.collect_params().initialize()
-    prm = {"kernel_" + k_: v for k_, v in kernel.get_params().items()}
+    prm = {"kernel_" + k_: float(v) for k_, v in kernel.get_params().items()}
     for i, b in enumerate(blocks):
-        pref = "warping_" if len(blocks) == 1 else "warping%d_" % i
         size = b["up"] - b["lo"]
         for kind in ("a", "b"):
             for j in range(size):
-                prm[pref + ("power_%s" % kind if size == 1 else "power_%s_%d" % (kind, j))] = b[kind][j]
-    wk.set_params(prm)          # public setter; routes by prefix to kernel and to each Warping block
+                prm[pname(i, size, kind, j)] = b[kind][j]
+    if how == "dict":
+        wk.set_params(dict(prm))     # public setter; routes by prefix to kernel and to each Warping block
+    else:
+        for w_, b in zip(warpings, blocks):
+            w_.encoding.set(w_.power_a_internal, list(b["a"]))
+            w_.encoding.set(w_.power_b_internal, list(b["b"]))
     got = wk.get_params()
+    if issues is not None:
+        check_installed(issues, "WarpedKernel(%d blocks) via %s" % (len(blocks), how), got, prm)
+        if fresh_inner is not None:
+            def fresh():
+                w2 = WarpedKernel(kernel=fresh_inner(), warpings=[Warping(d, coordinate_range=(b["lo"], b["up"]))
+                                                                  for b in blocks])
+                w2.collect_params().initialize()
+                return w2
+            check_roundtrip(issues, "WarpedKernel(%d blocks)" % len(blocks), wk, fresh)
     rb = []
     for i, b in enumerate(blocks):
-        pref = "warping_" if len(blocks) == 1 else "warping%d_" % i
         size = b["up"] - b["lo"]
-        name = lambda kind, j: pref + ("power_%s" % kind if size == 1 else "power_%s_%d" % (kind, j))  # noqa: E731
-        rb.append((b["lo"], b["up"], [float(got[name("a", j)]) for j in range(size)],
-                   [float(got[name("b", j)]) for j in range(size)]))
+        rb.append((b["lo"], b["up"], [float(got[pname(i, size, "a", j)]) for j in range(size)],
+                   [float(got[pname(i, size, "b", j)]) for j in range(size)]))
     return wk, RefWarped(ref, rb)
 
 
-def build(spec):
+def scalar_mean(v):
+    from syne_tune.optimizer.schedulers.searchers.bayesopt.gpautograd.mean import ScalarMeanFunction, ZeroMeanFunction
+    if v is None:
+        return ZeroMeanFunction(), 0.0
+    mf = ScalarMeanFunction()
+    mf.collect_params().initialize()
+    mf.set_mean_value(v)
+    return mf, float(mf.get_mean_value())
+
+
+def build_expdecay(ed, how, issues):
+    from syne_tune.optimizer.schedulers.searchers.bayesopt.gpautograd.kernel import ExponentialDecayResourcesKernelFunction
+    k0, r0 = build_matern(ed["base"], how, issues)
+    mx, mu = scalar_mean(ed["mu"] if ed["mu"] != 0.0 else None)
+    kern = ExponentialDecayResourcesKernelFunction(k0, mx, delta_fixed_value=ed["delta"])
+    kern.collect_params().initialize()
+    prm = {"kernelx_" + k_: float(v) for k_, v in k0.get_params().items()}
+    if ed["mu"] != 0.0:
+        prm["meanx_mean_value"] = mu
+    prm.update(alpha=ed["alpha"], mean_lam=ed["mean_lam"], gamma=ed["gamma"])
+    if ed["delta"] is None:
+        prm["delta"] = ed["delta_free"]
+    kern.set_params(dict(prm))
+    got = kern.get_params()
+    check_installed(issues, "ExponentialDecayResourcesKernelFunction", got, prm)
+    delta = float(got["delta"]) if ed["delta"] is None else float(ed["delta"])
+    ref = RefExpDecay(r0, ed["base"]["d"], mu, got["alpha"], got["mean_lam"], got["gamma"], delta)
+    return kern, ref
+
+
+def build(spec, issues=None):
     """returns (kernel object, mean function object, reference kernel, reference mean function)"""
     from syne_tune.optimizer.schedulers.searchers.bayesopt.gpautograd.kernel import (
-        ProductKernelFunction, RangeKernelFunction, ExponentialDecayResourcesKernelFunction,
-        ExponentialDecayResourcesMeanFunction)
-    from syne_tune.optimizer.schedulers.searchers.bayesopt.gpautograd.mean import (
-        ScalarMeanFunction, ZeroMeanFunction)
-
-    def scalar_mean(v):
-        if v is None:
-            return ZeroMeanFunction(), 0.0
-        mf = ScalarMeanFunction()
-        mf.collect_params().initialize()
-        mf.set_mean_value(v)
-        return mf, float(mf.get_mean_value())
-
+        ProductKernelFunction, RangeKernelFunction, ExponentialDecayResourcesMeanFunction)
+    issues = [] if issues is None else issues
+    how = spec.get("install", "dict")
     sub = spec["sub"]
-    if sub == "warp":
-        k0, r0 = build_matern(spec["base"])
-        kern, ref = build_warped(k0, r0, spec["blocks"], spec["D"])
+    if sub == "matern":
+        kern, ref = build_matern(spec["base"], how, issues)
+    elif sub == "warp":
+        k0, r0 = build_matern(spec["base"], how, issues)
+        kern, ref = build_warped(k0, r0, spec["blocks"], spec["D"], how, issues,
+                                 fresh_inner=lambda: build_matern(spec["base"])[0])
     elif sub == "product":
-        k1, r1 = build_matern(spec["k1"])
-        k2, r2 = build_matern(spec["k2"])
+        k1, r1 = build_matern(spec["k1"], how, issues)
+        k2, r2 = build_matern(spec["k2"], how, issues)
         d1 = spec["k1"]["d"]
         if spec["blocks1"]:
-            k1, r1 = build_warped(k1, r1, spec["blocks1"], d1)
+            k1, r1 = build_warped(k1, r1, spec["blocks1"], d1, how, issues)
         kern = ProductKernelFunction(k1, k2)
+        check_installed(issues, "ProductKernelFunction", kern.get_params(),
+                        dict([("kernel1_" + k_, float(v)) for k_, v in k1.get_params().items()]
+                             + [("kernel2_" + k_, float(v)) for k_, v in k2.get_params().items()]))
         ref = RefProduct(RefSlice(r1, 0, d1), RefSlice(r2, d1, spec["D"]))
     elif sub == "range":
-        k0, r0 = build_matern(spec["base"])
+        k0, r0 = build_matern(spec["base"], how, issues)
         kern = RangeKernelFunction(spec["D"], k0, spec["start"])
         ref = RefSlice(r0, spec["start"], spec["start"] + spec["base"]["d"])
-    else:
-        k0, r0 = build_matern(spec["base"])
-        mx, mu = scalar_mean(spec["mu"] if spec["mu"] != 0.0 else None)
-        kern = ExponentialDecayResourcesKernelFunction(k0, mx, delta_fixed_value=spec["delta"])
-        kern.collect_params().initialize()
-        prm = {"kernelx_" + k_: v for k_, v in k0.get_params().items()}
-        if spec["mu"] != 0.0:
-            prm["meanx_mean_value"] = mu
-        prm.update(alpha=spec["alpha"], mean_lam=spec["mean_lam"], gamma=spec["gamma"])
-        if spec["delta"] is None:
-            prm["delta"] = spec["delta_free"]
-        kern.set_params(prm)
-        got = kern.get_params()
-        delta = float(got["delta"]) if spec["delta"] is None else float(spec["delta"])
-        ref = RefExpDecay(r0, spec["base"]["d"], mu, got["alpha"], got["mean_lam"], got["gamma"], delta)
+    elif sub == "expdecay":
+        kern, ref = build_expdecay(spec, how, issues)
         return kern, ExponentialDecayResourcesMeanFunction(kern), ref, ref.mean
+    else:   # warp_outer
+        ked, red = build_expdecay(spec["ed"], how, issues)
+        if spec["inner"] == "expdecay":
+            kin, rin = ked, red
+        else:
+            k1, r1 = build_matern(spec["k1"], how, issues)
+            kin = ProductKernelFunction(k1, ked)
+            rin = RefProduct(RefSlice(r1, 0, spec["d1"]), RefSlice(red, spec["d1"], spec["D"]))
+        kern, ref = build_warped(kin, rin, spec["blocks"], spec["D"], how, issues)
     meanf, mval = scalar_mean(spec["mean"])
     return kern, meanf, ref, (lambda A: np.full(len(A), mval))
 
@@ -396,7 +505,12 @@ def run_case(ctx, spec, ck_cases=None, ck_meta=None):
                       signature=dict(component="gp_posterior", kernel=sub, quantity=quantity,
                                      warping_blocks=nblocks))
 
-    kern, meanf, ref, mref = build(spec)
+    issues = []
+    kern, meanf, ref, mref = build(spec, issues)
+    for what_, q_ in issues:
+        viol(what_, q_)
+    ctx.h("composite_install", spec.get("install", "dict"))
+    ctx.h("composite_dim", "D>=11" if D >= 11 else "D<=6")
     ctx.h("composite_kernel", sub if sub != "warp" else "warp_%d_block%s" % (nblocks, "" if nblocks == 1 else "s"))
     nrm = lambda a: float(np.linalg.norm(a))   # noqa: E731
     allX = np.vstack([X, Xt, xnew])
@@ -414,7 +528,18 @@ def run_case(ctx, spec, ck_cases=None, ck_meta=None):
             bad_kernel = True
             viol("%s deviates from the independent kernel formula by %.3g (tol %.3g)" % (name, dev, ktol),
                  "kernel")
-    if ck_cases is not None and sub in ("warp", "product", "range"):
+    # universal: diagonal(X) is the diagonal of forward(X, X) (up to the Matern NUMERICAL_JITTER, relative 5e-10
+    # per Matern factor) for every kernel object built here
+    Kall = np.asarray(kern(allX, allX))
+    dall = np.asarray(kern.diagonal(allX)).reshape(-1)
+    dtol = 4e-9 * float(np.max(np.abs(dall))) + ktol
+    if not float(np.max(np.abs(dall - np.diag(Kall)))) <= dtol:
+        bad_kernel = True
+        viol("kernel.diagonal(X) differs from diag(kernel(X, X)) by %.3g (tol %.3g)"
+             % (float(np.max(np.abs(dall - np.diag(Kall)))), dtol), "diagonal_vs_forward")
+    if float(np.max(np.abs(Kall - Kall.T))) > ktol:
+        viol("kernel(X, X) is not symmetric", "kernel_symmetry")
+    if ck_cases is not None and sub in ("warp", "product", "range", "matern") and D <= 6:
         ck_cases.append("(%s, %s, %s, %s, %s, %s, %s)" % (ref.coq(), _fl(JITTER), _fmat(X), _fmat(Xt), _fmat(K), _fmat(Kte),
                                                       _fl(ktol + ref.pow_extra(allX))))
         ck_meta.append(dict(kind="gpc", spec=spec))
